@@ -91,7 +91,92 @@ def replay_serve_one(inputs, ob):
     return ReplayResult(len(t.writer.getvalue()) == 0, f"returned; response bytes={len(t.writer.getvalue())}")
 
 
-@unit("C05.O1 serve_one answers every well-framed request", targets=["vgi_rpc/rpc/_server.py::RpcServer.serve_one", "vgi_rpc/rpc/_server.py::_maybe_attach_shm", "vgi_rpc/rpc/_server.py::_ConnectionShm.refresh"], replay=replay_serve_one, min_obligations=40, max_paths=20000)
+def search_serve_sequences(ob, seed):
+    """Native hunt: short sequences of well-framed requests fed to a real serve() loop over in-memory pipes;
+    every request must get its own response stream (none swallowed, none unanswered)."""
+    import io
+    from dataclasses import dataclass
+    from typing import Protocol
+
+    from vgi_rpc import ProducerState, Stream, StreamState
+    from vgi_rpc.metadata import REQUEST_VERSION, REQUEST_VERSION_KEY, RPC_METHOD_KEY
+    from vgi_rpc.rpc import RpcServer
+
+    @dataclass
+    class _Gen(ProducerState):
+        def produce(self, out, ctx):  # type: ignore[no-untyped-def]
+            out.finish()
+
+    ns = {"Stream": Stream, "StreamState": StreamState}
+    exec("from typing import Protocol\nclass P(Protocol):\n    def add(self, a: int) -> int: ...\n    def gen(self, count: int) -> Stream[StreamState]: ...\n", ns)
+    P = ns["P"]
+
+    class Impl:
+        def add(self, a: int) -> int:
+            return a + 1
+
+        def gen(self, count: int):  # type: ignore[no-untyped-def]
+            return Stream(output_schema=pa.schema([]), state=_Gen())
+
+    def req(method, cols, md_extra=None, version=REQUEST_VERSION):
+        md = {RPC_METHOD_KEY: method, REQUEST_VERSION_KEY: version}
+        md.update(md_extra or {})
+        arrays = [pa.array([v]) for _, v in cols]
+        schema = pa.schema([pa.field(n, a.type, nullable=False) for (n, _), a in zip(cols, arrays)])
+        buf = io.BytesIO()
+        with pa.ipc.new_stream(buf, schema) as w:
+            w.write_batch(pa.RecordBatch.from_arrays(arrays, schema=schema), custom_metadata=md)
+        return buf.getvalue()
+
+    good = req(b"add", [("a", 1)])
+    rejected = [
+        ("stream request with a mistyped parameter", req(b"gen", [("count", "x")])),
+        ("stream request with a misnamed parameter", req(b"gen", [("cnt", 1)])),
+        ("unknown method", req(b"nope", [])),
+        ("bad request_version", req(b"add", [("a", 1)], version=b"9")),
+        ("unary request with duplicate column names", req(b"add", [("a", 1), ("a", 2)])),
+        ("non-UTF-8 traceparent", req(b"add", [("a", 1)], {b"traceparent": b"\xff"})),
+        ("unary with wrong type", req(b"add", [("a", "s")])),
+    ]
+    for label, bad in rejected:
+        for seq_label, seq in ((f"[{label}, add]", [bad, good]), (f"[add, {label}, add, add]", [good, bad, good, good])):
+            class T:
+                def __init__(self, data):
+                    self.reader = io.BytesIO(data)
+                    self.writer = io.BytesIO()
+
+            t = T(b"".join(seq))
+            server = RpcServer(P, Impl())
+            try:
+                server.serve(t)
+            except BaseException as e:
+                return {"sequence": seq_label}, ReplayResult(True, f"serve() raised {type(e).__name__}: {str(e)[:100]} on {seq_label}")
+            out = io.BytesIO(t.writer.getvalue())
+            kinds = []
+            try:
+                while out.tell() < len(out.getvalue()):
+                    r = pa.ipc.open_stream(out)
+                    kind = "empty"
+                    while True:
+                        try:
+                            b, cm = r.read_next_batch_with_custom_metadata()
+                        except StopIteration:
+                            break
+                        if b.num_rows == 1:
+                            kind = "result"
+                        elif cm is not None and cm.get(b"vgi_rpc.log_level") == b"EXCEPTION" and kind != "result":
+                            kind = "error"
+                    kinds.append(kind)
+            except Exception:
+                pass
+            want = ["result" if q is good else "error" for q in seq]
+            # (after the last request the in-memory pipe is at EOF; the server may write one more error stream then)
+            if kinds[: len(seq)] != want:
+                return {"sequence": seq_label}, ReplayResult(True, f"requests {seq_label}: expected responses {want}, the client would read {kinds}")
+    return None
+
+
+@unit("C05.O1 serve_one answers every well-framed request", targets=["vgi_rpc/rpc/_server.py::RpcServer.serve_one", "vgi_rpc/rpc/_server.py::_maybe_attach_shm", "vgi_rpc/rpc/_server.py::_ConnectionShm.refresh"], replay=replay_serve_one, search=search_serve_sequences, min_obligations=40, max_paths=20000)
 def serve_one(S):
     W = World(S)
     md, vals = make_md(S)
@@ -130,11 +215,19 @@ def serve_one(S):
     mname = {"v": None}
 
     def read_request(S, reader, ipc_validation=None, external_config=None, shm=None, attach_shm=None):
-        k = S.choose(5)
+        # contract of _read_request (proved in C05.O3): ArrowInvalid *before* anything is recorded only for
+        # bytes that are not an IPC stream; every other exception leaves after the request stream was drained
+        # and the batch recorded in _current_request_batch
+        k = S.choose(7)
         outcome["k"] = k
         if k == 0:
             raise_(pa.ArrowInvalid, "not an IPC stream")
         S.event("request_consumed")
+        S.interp.models.call_concrete_method(S.interp, srv._current_request_batch, "set", None, [SObj(None, kind="Batch")], {})
+        if k == 5:
+            raise_(pa.ArrowInvalid, "value cannot be converted")  # well-framed, unusable contents
+        if k == 6:
+            raise_(KeyError, "duplicate column / bad metadata / malformed pointer")  # any other Exception
         srv._current_request_metadata.set  # noqa: B018  (context variables live in ghost state)
         S.interp.models.call_concrete_method(S.interp, srv._current_request_metadata, "set", None, [md], {})
         if k == 1:
@@ -254,3 +347,226 @@ def maybe_attach(S):
     for _, name, size in ev:
         S.oblige("O2.attach_gets_the_decoded_name_and_numeric_size", isinstance(name, (SStr, str)) and isinstance(size, (SInt, int)), kind="post")
     S.canary("O2.canary.never_attaches", SBool(z3.BoolVal(not ev)))
+
+
+# ------------------------------------------------------------------------------------------
+# C05.O3  _read_request: whatever a well-framed request carries, only the exceptions serve_one
+#          answers (VersionError / RpcError) or the connection-ending ones leave it
+# ------------------------------------------------------------------------------------------
+
+from vgi_rpc.metadata import REQUEST_VERSION_KEY, RPC_METHOD_KEY, SHM_LENGTH_KEY, TRACEPARENT_KEY, TRACESTATE_KEY  # noqa: E402
+import vgi_rpc.rpc._wire as wire  # noqa: E402
+
+RR_KEYS = {"method": RPC_METHOD_KEY, "version": REQUEST_VERSION_KEY, "traceparent": TRACEPARENT_KEY, "tracestate": TRACESTATE_KEY, "shm_offset": SHM_OFFSET_KEY, "shm_length": SHM_LENGTH_KEY}
+
+
+def _real_request_bytes(inputs, n_cols, dup_names, num_rows, bad_value):
+    import io
+
+    md = {}
+    for tag, key in RR_KEYS.items():
+        if inputs.get("rr_" + tag + "_present"):
+            md[key] = inputs.get("rr_" + tag, b"")
+    names = ["a", "a"][:n_cols] if dup_names else ["a", "b"][:n_cols]
+    if bad_value:
+        # a value pyarrow cannot turn into a Python object: timestamp far outside datetime's range
+        arrays = [pa.array([2**62] * num_rows, type=pa.timestamp("s")) for _ in names]
+    else:
+        arrays = [pa.array([1] * num_rows, type=pa.int64()) for _ in names]
+    schema = pa.schema([pa.field(n, a.type) for n, a in zip(names, arrays)])
+    batch = pa.RecordBatch.from_arrays(arrays, schema=schema)
+    buf = io.BytesIO()
+    with pa.ipc.new_stream(buf, schema) as w:
+        w.write_batch(batch, custom_metadata=md)
+    return buf.getvalue(), md
+
+
+def replay_read_request(inputs, ob):
+    """Real serve_one on a request built from the model: metadata values, duplicate names, rows, unconvertible value."""
+    import io
+    from typing import Protocol
+
+    from vgi_rpc.rpc import RpcServer
+
+    class P(Protocol):
+        def ping(self) -> int: ...
+
+    class Impl:
+        def ping(self) -> int:
+            return 1
+
+    server = RpcServer(P, Impl())
+    n_cols = inputs.get("n_cols", 0)
+    rows = inputs.get("num_rows", 1)
+    if not isinstance(rows, int) or rows < 0 or rows > 3:
+        rows = 1
+    data, md = _real_request_bytes(inputs, n_cols, inputs.get("dup_names", False), rows, inputs.get("as_py_raises", False))
+
+    class T:
+        def __init__(self):
+            self.reader = io.BytesIO(data)
+            self.writer = io.BytesIO()
+
+    t = T()
+    try:
+        server.serve_one(t)
+    except CONNECTION_ENDING as e:
+        return ReplayResult(False, f"connection-ending {type(e).__name__}")
+    except BaseException as e:
+        return ReplayResult(True, f"serve_one let {type(e).__name__}: {str(e)[:120]} escape for metadata {md!r}, {n_cols} column(s) dup={inputs.get('dup_names')} rows={rows}; reply bytes={len(t.writer.getvalue())}")
+    return ReplayResult(len(t.writer.getvalue()) == 0, f"answered with {len(t.writer.getvalue())} bytes")
+
+
+def search_read_request(ob, seed):
+    """Native hunt over the request shapes the model distinguishes."""
+    import itertools
+
+    vals = {"traceparent": [None, b"\xff\xfe", b"00-abc"], "tracestate": [None, b"\xff"], "method": [b"ping", b"\xff"], "version": [b"1"]}
+    for tp, ts, m, v, n_cols, dup, rows, bad in itertools.product(vals["traceparent"], vals["tracestate"], vals["method"], vals["version"], [0, 1, 2], [False, True], [0, 1, 2], [False, True]):
+        if dup and n_cols < 2:
+            continue
+        inputs = {"n_cols": n_cols, "dup_names": dup, "num_rows": rows, "as_py_raises": bad}
+        for tag, val in (("traceparent", tp), ("tracestate", ts), ("method", m), ("version", v)):
+            inputs["rr_" + tag + "_present"] = val is not None
+            if val is not None:
+                inputs["rr_" + tag] = val
+        rr = replay_read_request(inputs, ob)
+        if rr.confirmed:
+            return inputs, rr
+    return None
+
+
+@unit("C05.O3 _read_request lets only answerable or connection-ending exceptions out", targets=["vgi_rpc/rpc/_wire.py::_read_request", "vgi_rpc/shm.py::resolve_shm_batch", "vgi_rpc/shm.py::is_shm_pointer_batch"], replay=replay_read_request, search=search_read_request, min_obligations=40, max_paths=40000)
+def read_request(S):
+    import pyarrow.ipc as ipc
+    from vgi_rpc.utils import ValidatedReader
+
+    W = World(S)
+    S.syntactic_pruning = True if hasattr(S, "syntactic_pruning") else None
+    vals = {}
+    tags = {key: tag for tag, key in RR_KEYS.items()}
+
+    def md_get(S, m, key, default=None):
+        # each key is absent or an arbitrary byte string; decided lazily, at the first read of that key
+        if key not in tags:
+            return None
+        if key not in vals:
+            present = S.choose(2) == 1
+            S.inputs["rr_" + tags[key] + "_present"] = present
+            vals[key] = S.bytes("rr_" + tags[key]) if present else None
+        return vals[key]
+
+    md_present = S.choose(2) == 1
+    md = SObj(None, kind="KVMeta")
+    S.handlers["KVMeta.get"] = md_get
+    S.handlers["KVMeta.__bool__"] = lambda S, m: True
+    # the request batch: 0..2 columns with arbitrary (possibly equal) names, arbitrary row count
+    n_cols = S.choose(3)
+    S.inputs["n_cols"] = n_cols
+    names = [S.str(f"col{i}") for i in range(n_cols)]
+    dup = n_cols == 2 and S.choose(2) == 1
+    S.inputs["dup_names"] = dup
+    if n_cols == 2:
+        S.assume(eq(names[0], names[1]) if dup else Not(eq(names[0], names[1])))
+    fields = [SObj(None, kind="Field", name=nm) for nm in names]
+    schema = SObj(None, kind="Schema", fields=fields, names=list(names))
+    S.handlers["Schema.__len__"] = lambda S, sc: len(sc.fields["fields"])
+    S.handlers["Schema.__iter__"] = lambda S, sc: list(sc.fields["fields"])
+    num_rows = S.int("num_rows")
+    S.assume(num_rows >= 0)
+    batch = SObj(None, kind="Batch", schema=schema, num_rows=num_rows)
+    as_py_raises = S.choose(2) == 1
+    S.inputs["as_py_raises"] = as_py_raises
+
+    def column(S, b, key):
+        if isinstance(key, (SStr, str)):
+            # pyarrow: a name that occurs more than once (or not at all) is a KeyError
+            hits = [i for i, nm in enumerate(names) if nm is key or (n_cols == 2 and dup)]
+            if n_cols == 2 and dup:
+                raise PyRaise(SExc(KeyError, ("Field exists 2 times in schema",)))
+            return SObj(None, kind="Column")
+        return SObj(None, kind="Column")
+
+    S.handlers["Batch.column"] = column
+    S.handlers["Column.__getitem__"] = lambda S, c, i: SObj(None, kind="Scalar")
+
+    def as_py(S, sc):
+        if as_py_raises:
+            raise PyRaise(SExc(pa.ArrowInvalid, ("value out of range for a Python object",))) if S.choose(2) == 0 else PyRaise(SExc(OverflowError, ("date value out of range",)))
+        return S.opaque("param_value", "PyVal?")
+
+    S.handlers["Scalar.as_py"] = as_py
+    reader_mode = S.choose(3)
+
+    def open_stream(S, src):
+        return SObj(None, kind="RawIpcReader")
+
+    S.handlers[ipc.open_stream] = open_stream
+    S.handlers[ValidatedReader] = lambda S, raw, validation=None: SObj(None, kind="Reader")
+
+    def read_next(S, r):
+        if reader_mode == 1:
+            S.event("not_ipc")
+            raise_(pa.ArrowInvalid, "not an IPC stream")
+        if reader_mode == 2:
+            S.event("empty_stream")
+            raise_(StopIteration)
+        S.event("batch_read")
+        return (batch, md if md_present else None)
+
+    S.handlers["Reader.read_next_batch_with_custom_metadata"] = read_next
+    S.handlers["_drain_stream"] = lambda S, r: S.event("drained")
+    S.handlers["fmt_batch"] = lambda S, *a: ""
+    S.handlers["fmt_metadata"] = lambda S, *a: ""
+    S.handlers["fmt_schema"] = lambda S, *a: ""
+    S.handlers["fmt_kwargs"] = lambda S, *a: ""
+    S.handlers["resolve_external_location"] = lambda S, b, cm, cfg, **k: (b, cm)
+    S.inline.update({"resolve_shm_batch", "is_shm_pointer_batch"})
+    # a static shm segment may be present: its read/deserialize are assumed externals that may fail on garbage extents
+    use_shm = S.choose(2) == 1
+    seg = SObj(None, kind="Segment", name="seg") if use_shm else None
+
+    def read_buffer(S, sg, offset, length):
+        S.event("read_buffer", offset, length)
+        if S.choose(2) == 1:
+            raise_(ValueError, "extent outside the segment")
+        return SObj(None, kind="Buffer")
+
+    S.handlers["Segment.read_buffer"] = read_buffer
+    S.handlers["_deserialize_from_shm"] = lambda S, buf, schema_: (raise_(pa.ArrowInvalid, "garbage in region") if S.choose(2) == 1 else batch)
+    S.handlers["Segment.free"] = lambda S, sg, off: S.event("freed", off)
+    S.handlers["strip_keys"] = lambda S, cm, *keys: cm
+    S.handlers["merge_metadata"] = lambda S, *mds: mds[0]
+    S.handlers["Segment.close"] = lambda S, sg: None
+    import logging
+
+    S.handlers["Logger.isEnabledFor"] = lambda S, *a: False
+    out = S.outcome(wire._read_request, SObj(None, kind="RawReader"), "full", None, shm=seg, attach_shm=None)
+    names_ev = [e[0] for e in S.trace]
+    if out.raised:
+        from vgi_rpc.rpc._common import RpcError as _RpcError
+        from vgi_rpc.rpc._common import VersionError as _VersionError
+
+        store = S.ghost.get("__ctxvars__", {})
+        from vgi_rpc.rpc._common import _current_request_batch as _crb
+
+        recorded = store.get(_crb) is not None
+        wit = f"{exc_class(out.exc).__name__} @ {getattr(out.exc, 'site', '')[:70]}"
+        if "not_ipc" in names_ev:
+            S.oblige("O3.non_ipc_bytes_raise_ArrowInvalid_with_nothing_recorded", exc_is(out.exc, pa.ArrowInvalid) and not recorded, kind="raises", witness=wit)
+        else:
+            # a well-framed request: whatever is raised, the stream has been drained and the batch recorded,
+            # which is what lets serve_one answer it and keep the connection (C05.O1)
+            from vgi_rpc.rpc._common import RpcError as _RpcError
+            from vgi_rpc.rpc._common import VersionError as _VersionError
+
+            consumed = "drained" in names_ev or "empty_stream" in names_ev  # request stream read to its end
+            if exc_is(out.exc, _RpcError, _VersionError):
+                S.oblige("O3.typed_rejection_only_after_the_stream_was_consumed", consumed, kind="raises", witness=wit)
+            else:
+                S.oblige("O3.rejection_only_after_drain_and_record", consumed and recorded, kind="raises", witness=wit)
+            S.oblige("O3.well_framed_request_never_ends_the_connection", not exc_is(out.exc, EOFError, StopIteration, OSError), kind="raises", witness=wit)
+        return
+    S.oblige("O3.returns_method_and_kwargs", isinstance(out.value, tuple) and len(out.value) == 2, kind="post")
+    S.oblige("O3.request_stream_drained", "drained" in names_ev, kind="trace")
+    S.canary("O3.canary.never_returns", False)
